@@ -114,6 +114,7 @@ class Recorder:
         self.last_flow = None
         self.last_sim = None
         self.solve = None
+        self.created = []          # every field object that was constructed (including the one a search class builds in its constructor)
 
 
 REC: Recorder | None = None
@@ -202,6 +203,7 @@ def install():
             self.fid = ident(g_function.bore_locations)
             self.sim_at = None
             REC.last_flow = (v_flow_system, g_function.m_flow)
+            REC.created.append({"n": self.nbh, "vsys": v_flow_system, "m": g_function.m_flow})
 
         def simulate(self, method):
             h = self.bhe.b.H
@@ -366,7 +368,7 @@ def run_behaviour(beh: dict, max_iter: int | None = None, ext=None):
     s = getattr(mgr, "_search", None)
     if s is not None:
         rows = [r for r in getattr(s, "searchTracker", []) if len(r) == 4]
-    return {"log": REC.log, "out": out, "escape": "available configuration selected." in text, "branch": branch,
+    return {"log": REC.log, "created": REC.created, "out": out, "escape": "available configuration selected." in text, "branch": branch,
             "rows": rows, "extended": ORA.extended, "oracle": ORA}
 
 
